@@ -1021,10 +1021,31 @@ func parseTag(c int) (bitcode, uint64) {
 	return code, uint64(low)
 }
 
+// maxReadPrealloc is the largest declared length for which readN allocates up front.
+const maxReadPrealloc = 1 << 16
+
 // ReadN reads the next n bytes of input from the underlying stream.
 func (b *bitstream) readN(n uint64) ([]byte, error) {
 	if n == 0 {
 		return nil, nil
+	}
+
+	if n > maxReadPrealloc {
+		// A declared length is not evidence that the input holds that much data:
+		// grow the buffer as data arrives instead of allocating it up front.
+		if n > math.MaxInt64 {
+			return nil, &UnexpectedEOFError{b.pos}
+		}
+		buf := bytes.Buffer{}
+		actual, err := io.CopyN(&buf, b.in, int64(n))
+		b.pos += uint64(actual)
+		if err == io.EOF {
+			return nil, &UnexpectedEOFError{b.pos}
+		}
+		if err != nil {
+			return nil, &IOError{err}
+		}
+		return buf.Bytes(), nil
 	}
 
 	bs := make([]byte, n)
